@@ -4,6 +4,8 @@ package vf
 
 import (
 	"bytes"
+	"encoding/base64"
+	"encoding/hex"
 	"encoding/json"
 	"fmt"
 	"os"
@@ -489,4 +491,93 @@ func Par(f, g func()) {
 	if a := nabort.Load(); a != nil {
 		panic(a)
 	}
+}
+
+// NoLeak (native): the JSON form of out must not contain any of the secrets in a common encoding (raw, hex, base64
+// std/url/raw), searched recursively through JSON strings that are themselves base64 of JSON or of binary data.
+func NoLeak(label string, out interface{}, secrets ...interface{}) {
+	bz, err := json.Marshal(out)
+	if err != nil {
+		Assert(label, false)
+		return
+	}
+	var needles [][]byte
+	for _, s := range secrets {
+		switch x := s.(type) {
+		case nil:
+		case []byte:
+			if len(x) >= 8 {
+				needles = append(needles, x)
+			}
+		case string:
+			if len(x) >= 8 {
+				needles = append(needles, []byte(x))
+			}
+		case interface{ MarshalBinary() ([]byte, error) }:
+			if rv := reflect.ValueOf(x); rv.Kind() == reflect.Ptr && rv.IsNil() {
+				continue
+			}
+			if b, err := x.MarshalBinary(); err == nil && len(b) >= 8 {
+				needles = append(needles, b)
+			}
+		}
+	}
+	Asserted[label]++
+	Asserted[label+":control"]++
+	if leakScan(bz, needles, 0) {
+		Violated = append(Violated, label)
+		fmt.Println("VF-VIOLATED " + label)
+	}
+}
+
+func leakScan(hay []byte, needles [][]byte, depth int) bool {
+	if depth > 6 {
+		return false
+	}
+	for _, n := range needles {
+		if bytes.Contains(hay, n) || bytes.Contains(hay, []byte(hex.EncodeToString(n))) {
+			return true
+		}
+		for _, enc := range []*base64.Encoding{base64.StdEncoding, base64.URLEncoding, base64.RawStdEncoding, base64.RawURLEncoding} {
+			if bytes.Contains(hay, []byte(enc.EncodeToString(n))) {
+				return true
+			}
+		}
+	}
+	var v interface{}
+	if json.Unmarshal(hay, &v) == nil {
+		return leakWalk(v, needles, depth)
+	}
+	return false
+}
+
+func leakWalk(v interface{}, needles [][]byte, depth int) bool {
+	switch x := v.(type) {
+	case map[string]interface{}:
+		for k, e := range x {
+			if leakWalk(k, needles, depth) || leakWalk(e, needles, depth) {
+				return true
+			}
+		}
+	case []interface{}:
+		for _, e := range x {
+			if leakWalk(e, needles, depth) {
+				return true
+			}
+		}
+	case string:
+		for _, enc := range []*base64.Encoding{base64.StdEncoding, base64.URLEncoding, base64.RawStdEncoding, base64.RawURLEncoding} {
+			if d, err := enc.DecodeString(x); err == nil && len(d) > 0 {
+				if leakScan(d, needles, depth+1) {
+					return true
+				}
+			}
+		}
+		if d, err := hex.DecodeString(x); err == nil && len(d) > 0 {
+			if leakScan(d, needles, depth+1) {
+				return true
+			}
+		}
+	}
+	return false
 }
